@@ -38,9 +38,16 @@ def cancelHandle (s : St) (id : Nat) : St :=
   ({ s with timers := (s.timers.map
       (fun (h : Handle) => if h.id == id then { h with cancelled := true } else h)) } : St).emit (.cancel id)
 
-/-- the primitives of the timer methods = the model's event loop and block; `inside`: the method runs
-    inside a state transition (`self.event` is then the recursive call) -/
-def tprims (c : Cfg) (inside : Bool) :
+/-- the circumstances a timer method may run in: inside a state transition (`self.event` is then the
+    recursive call), whether the `stop()` / `start()` of the base classes raises, and the offset of the
+    wall clock from the loop clock -/
+structure TEnv where
+  inside : Bool
+  superFails : Bool := false
+  wall : Nat := 0
+
+/-- the primitives of the timer methods = the model's event loop and block -/
+def tprims (c : Cfg) (env : TEnv) :
     TimerPrims TSt String TEvent Dur Nat Nat (Option Val) Val Unit ErrKind where
   exc := excOf
   getState := fun t => t.st.state
@@ -70,10 +77,10 @@ def tprims (c : Cfg) (inside : Bool) :
   timerWhen := fun t id => match liveHandle t.st id with
     | some h => h.when
     | none => 0
-  loopToUnix := fun w => w
-  event := fun ev => if inside then lift (fun s => (eventRec c s ev {}).1) else lift (fun s => (deliver c s ev {}).1)
-  superStop := fun t => (t, .ok ())
-  superStart := fun t => (t, .ok ())
+  loopToUnix := fun w => w + env.wall
+  event := fun ev => if env.inside then lift (fun s => (eventRec c s ev {}).1) else lift (fun s => (deliver c s ev {}).1)
+  superStop := fun t => (t, if env.superFails then .error .fuel else .ok ())
+  superStart := fun t => (t, if env.superFails then .error .fuel else .ok ())
   getSdata := fun t => t.st.input
   setSdata := fun sd t => t.map fun s => { s with input := sd }
   istateLen2 := fun _ => false
@@ -89,51 +96,51 @@ def tprims (c : Cfg) (inside : Bool) :
   setOutput := fun v => lift (setOut · v)
 
 /-! the primitives one by one (so that `tprims c inside` itself is never unfolded) -/
-theorem tprims_exc (c : Cfg) (inside : Bool) : (tprims c inside).exc = (excOf) := rfl
-theorem tprims_getState (c : Cfg) (inside : Bool) : (tprims c inside).getState = (fun t => t.st.state) := rfl
-theorem tprims_setState (c : Cfg) (inside : Bool) : (tprims c inside).setState = (fun q t => t.map (·.enter q)) := rfl
-theorem tprims_getActiveTimer (c : Cfg) (inside : Bool) : (tprims c inside).getActiveTimer = (fun t => t.st.active) := rfl
-theorem tprims_setActiveTimer (c : Cfg) (inside : Bool) : (tprims c inside).setActiveTimer = (fun o t => t.map fun s => { s with active := o }) := rfl
-theorem tprims_timersEnabled (c : Cfg) (inside : Bool) : (tprims c inside).timersEnabled = (fun t => !t.st.stopped) := rfl
-theorem tprims_setTimersEnabled (c : Cfg) (inside : Bool) : (tprims c inside).setTimersEnabled = (fun b t => t.map fun s => { s with stopped := !b }) := rfl
-theorem tprims_durIsNone (c : Cfg) (inside : Bool) : (tprims c inside).durIsNone = (fun d => decide (d = Dur.none)) := rfl
-theorem tprims_durEqInf (c : Cfg) (inside : Bool) : (tprims c inside).durEqInf = (fun d => decide (d = Dur.inf)) := rfl
-theorem tprims_durationOf (c : Cfg) (inside : Bool) : (tprims c inside).durationOf = (fun _ oq => match oq with
+theorem tprims_exc (c : Cfg) (env : TEnv) : (tprims c env).exc = (excOf) := rfl
+theorem tprims_getState (c : Cfg) (env : TEnv) : (tprims c env).getState = (fun t => t.st.state) := rfl
+theorem tprims_setState (c : Cfg) (env : TEnv) : (tprims c env).setState = (fun q t => t.map (·.enter q)) := rfl
+theorem tprims_getActiveTimer (c : Cfg) (env : TEnv) : (tprims c env).getActiveTimer = (fun t => t.st.active) := rfl
+theorem tprims_setActiveTimer (c : Cfg) (env : TEnv) : (tprims c env).setActiveTimer = (fun o t => t.map fun s => { s with active := o }) := rfl
+theorem tprims_timersEnabled (c : Cfg) (env : TEnv) : (tprims c env).timersEnabled = (fun t => !t.st.stopped) := rfl
+theorem tprims_setTimersEnabled (c : Cfg) (env : TEnv) : (tprims c env).setTimersEnabled = (fun b t => t.map fun s => { s with stopped := !b }) := rfl
+theorem tprims_durIsNone (c : Cfg) (env : TEnv) : (tprims c env).durIsNone = (fun d => decide (d = Dur.none)) := rfl
+theorem tprims_durEqInf (c : Cfg) (env : TEnv) : (tprims c env).durEqInf = (fun d => decide (d = Dur.inf)) := rfl
+theorem tprims_durationOf (c : Cfg) (env : TEnv) : (tprims c env).durationOf = (fun _ oq => match oq with
     | some q => clamp (c.instDur q)
     | none => Dur.none) := rfl
-theorem tprims_timePeriod (c : Cfg) (inside : Bool) : (tprims c inside).timePeriod = (fun d t => match d with
+theorem tprims_timePeriod (c : Cfg) (env : TEnv) : (tprims c env).timePeriod = (fun d t => match d with
     | .bad => (t, .error .valueError)
     | d => (t, .ok (clamp d))) := rfl
-theorem tprims_cmpZero (c : Cfg) (inside : Bool) : (tprims c inside).cmpZero = (fun op d t => match d with
+theorem tprims_cmpZero (c : Cfg) (env : TEnv) : (tprims c env).cmpZero = (fun op d t => match d with
     | .us n => (t, .ok (cmpInt op n))
     | .inf => (t, .ok (match op with | .gt => true | .ge => true | _ => false))
     | .bad => (t, .error .valueError)
     | .none => (t, .error .fuel)) := rfl
-theorem tprims_callLater (c : Cfg) (inside : Bool) : (tprims c inside).callLater = (fun d ev t => match d with
+theorem tprims_callLater (c : Cfg) (env : TEnv) : (tprims c env).callLater = (fun d ev t => match d with
     | .us n => (t.map (armHandle · n.toNat ev), .ok t.st.nextId)
     | _ => (t, .error .fuel)) := rfl
-theorem tprims_cancelled (c : Cfg) (inside : Bool) : (tprims c inside).cancelled = (fun t id => !handleLive t.st id) := rfl
-theorem tprims_cancel (c : Cfg) (inside : Bool) : (tprims c inside).cancel = (fun id t => (t.map (cancelHandle · id), .ok ())) := rfl
-theorem tprims_timerWhen (c : Cfg) (inside : Bool) : (tprims c inside).timerWhen = (fun t id => match liveHandle t.st id with
+theorem tprims_cancelled (c : Cfg) (env : TEnv) : (tprims c env).cancelled = (fun t id => !handleLive t.st id) := rfl
+theorem tprims_cancel (c : Cfg) (env : TEnv) : (tprims c env).cancel = (fun id t => (t.map (cancelHandle · id), .ok ())) := rfl
+theorem tprims_timerWhen (c : Cfg) (env : TEnv) : (tprims c env).timerWhen = (fun t id => match liveHandle t.st id with
     | some h => h.when
     | none => 0) := rfl
-theorem tprims_loopToUnix (c : Cfg) (inside : Bool) : (tprims c inside).loopToUnix = (fun w => w) := rfl
-theorem tprims_event (c : Cfg) (inside : Bool) : (tprims c inside).event = (fun ev => if inside then lift (fun s => (eventRec c s ev {}).1) else lift (fun s => (deliver c s ev {}).1)) := rfl
-theorem tprims_superStop (c : Cfg) (inside : Bool) : (tprims c inside).superStop = (fun t => (t, .ok ())) := rfl
-theorem tprims_superStart (c : Cfg) (inside : Bool) : (tprims c inside).superStart = (fun t => (t, .ok ())) := rfl
-theorem tprims_getSdata (c : Cfg) (inside : Bool) : (tprims c inside).getSdata = (fun t => t.st.input) := rfl
-theorem tprims_setSdata (c : Cfg) (inside : Bool) : (tprims c inside).setSdata = (fun sd t => t.map fun s => { s with input := sd }) := rfl
-theorem tprims_istateLen2 (c : Cfg) (inside : Bool) : (tprims c inside).istateLen2 = (fun _ => false) := rfl
-theorem tprims_istatePad (c : Cfg) (inside : Bool) : (tprims c inside).istatePad = (fun x => x) := rfl
-theorem tprims_istateUnpack (c : Cfg) (inside : Bool) : (tprims c inside).istateUnpack = (fun _ => none) := rfl
-theorem tprims_checkState (c : Cfg) (inside : Bool) : (tprims c inside).checkState = (fun _ t => (t, .ok ())) := rfl
-theorem tprims_remaining (c : Cfg) (inside : Bool) : (tprims c inside).remaining = (fun _ t => (t, .error .fuel)) := rfl
-theorem tprims_timedEvent (c : Cfg) (inside : Bool) : (tprims c inside).timedEvent = (fun _ q => (c.tbl.timedOf q).map (·.1)) := rfl
-theorem tprims_calcOutput (c : Cfg) (inside : Bool) : (tprims c inside).calcOutput = (fun t => match calcOutput c t.st with
+theorem tprims_loopToUnix (c : Cfg) (env : TEnv) : (tprims c env).loopToUnix = (fun w => w + env.wall) := rfl
+theorem tprims_event (c : Cfg) (env : TEnv) : (tprims c env).event = (fun ev => if env.inside then lift (fun s => (eventRec c s ev {}).1) else lift (fun s => (deliver c s ev {}).1)) := rfl
+theorem tprims_superStop (c : Cfg) (env : TEnv) : (tprims c env).superStop = (fun t => (t, if env.superFails then .error .fuel else .ok ())) := rfl
+theorem tprims_superStart (c : Cfg) (env : TEnv) : (tprims c env).superStart = (fun t => (t, if env.superFails then .error .fuel else .ok ())) := rfl
+theorem tprims_getSdata (c : Cfg) (env : TEnv) : (tprims c env).getSdata = (fun t => t.st.input) := rfl
+theorem tprims_setSdata (c : Cfg) (env : TEnv) : (tprims c env).setSdata = (fun sd t => t.map fun s => { s with input := sd }) := rfl
+theorem tprims_istateLen2 (c : Cfg) (env : TEnv) : (tprims c env).istateLen2 = (fun _ => false) := rfl
+theorem tprims_istatePad (c : Cfg) (env : TEnv) : (tprims c env).istatePad = (fun x => x) := rfl
+theorem tprims_istateUnpack (c : Cfg) (env : TEnv) : (tprims c env).istateUnpack = (fun _ => none) := rfl
+theorem tprims_checkState (c : Cfg) (env : TEnv) : (tprims c env).checkState = (fun _ t => (t, .ok ())) := rfl
+theorem tprims_remaining (c : Cfg) (env : TEnv) : (tprims c env).remaining = (fun _ t => (t, .error .fuel)) := rfl
+theorem tprims_timedEvent (c : Cfg) (env : TEnv) : (tprims c env).timedEvent = (fun _ q => (c.tbl.timedOf q).map (·.1)) := rfl
+theorem tprims_calcOutput (c : Cfg) (env : TEnv) : (tprims c env).calcOutput = (fun t => match calcOutput c t.st with
     | none => (t, .error .keyError)
     | some v => (t, .ok v)) := rfl
-theorem tprims_isUndef (c : Cfg) (inside : Bool) : (tprims c inside).isUndef = (fun v => v.isUndef) := rfl
-theorem tprims_setOutput (c : Cfg) (inside : Bool) : (tprims c inside).setOutput = (fun v => lift (setOut · v)) := rfl
+theorem tprims_isUndef (c : Cfg) (env : TEnv) : (tprims c env).isUndef = (fun v => v.isUndef) := rfl
+theorem tprims_setOutput (c : Cfg) (env : TEnv) : (tprims c env).setOutput = (fun v => lift (setOut · v)) := rfl
 
 /-- symbolic execution of a translated timer method on the model primitives -/
 macro "ttsimp" "[" ts:Lean.Parser.Tactic.simpLemma,* "]" : tactic =>
